@@ -34,8 +34,13 @@ META = dict(
                "Paused with no run active (Lean witness asIs_counterexample, replayed on the real engine every "
                "run); until the diff is applied this check reports that history as VIOLATION. Errors injected while "
                "no run is active (hardware read error, failed inject/set_method) are outside the property's "
-               "quantifier; for them and for ill-formed command arguments the weaker state_agrees_weak is proved "
-               "(everything except 'no run active => Stopped'). Trusted: Lean kernel (+propext, Classical.choice, "
+               "quantifier, but on the code as it is they leave System State Paused with no run and Start rejected: "
+               "recorded finding (findings.d/C06.json, Lean witness asIs_error_while_idle, reproduced on the real "
+               "engine every run) with a proposed repair (fixes/C06-error-while-idle-stays-stopped.diff); with it "
+               "state_agrees_all proves the agreement for EVERY operation sequence, errors at any time and "
+               "ill-formed arguments included; without it state_agrees_weak (everything except 'no run active => "
+               "Stopped'). Agree now also demands is_paused = is_holding = False while no run is active; "
+               "new_run_new_id: a run that follows a cleared id gets a strictly larger id. Trusted: Lean kernel (+propext, Classical.choice, "
                "Quot.sound), the harness, the model standing for engine.py / internal_commands*.py / "
                "command_manager.py (interpreter and UOD commands are environment; cancel/force by run-log id and "
                "method edits are not in this model).",
@@ -44,7 +49,8 @@ META = dict(
               "sequences, adaptive random sessions, malformed stream) + independent table oracle",
 )
 MODULE = "OPM.Properties.C06"
-REQUIRED = ["OPM.C06.state_agrees", "OPM.C06.state_agrees_weak", "OPM.C06.accepted_iff_valid",
+REQUIRED = ["OPM.C06.state_agrees", "OPM.C06.state_agrees_all", "OPM.C06.new_run_new_id",
+            "OPM.C06.asIs_error_while_idle", "OPM.C06.state_agrees_weak", "OPM.C06.accepted_iff_valid",
             "OPM.C06.rejected_changes_nothing", "OPM.C06.runid_fresh", "OPM.C06.agree_step",
             "OPM.C06.asIs_counterexample"]
 
@@ -87,6 +93,7 @@ def oracle(case: dict, recs: list[dict]) -> list[Failure]:
     episode = False         # a restart is in progress (System State Restarting seen, new run id not yet)
     stop_req = False        # a Stop request was accepted during the current run
     start_pending = False   # a Start request was accepted since the previous tick
+    idle_error = False      # an error was injected while no run was active (outside C06's quantifier)
     prev = recs[0]
 
     def fail(key, i, msg):
@@ -98,6 +105,8 @@ def oracle(case: dict, recs: list[dict]) -> list[Failure]:
         st = r["state"]
         if i > 0:
             op = r["op"]
+            if not prev["started"] and (op[0] == "errapi" or (op[0] == "tick" and len(op) > 3 and op[3])):
+                idle_error = True
             if op[0] == "user" and op[1] in CMDS:
                 want = spec_valid(prev["state"], prev["ctl"][1], op[1])
                 got = r["res"] == "ok"
@@ -120,9 +129,16 @@ def oracle(case: dict, recs: list[dict]) -> list[Failure]:
             fail("control-state-message-differs-from-flags", i, f"{r['ctl']}")
         if st == "Stopped" and running:
             fail("stopped-while-run-active", i, "System State Stopped but is_running")
-        if quiet and not running and st != "Stopped":
-            fail("state-not-stopped-while-no-run-active", i, f"System State {st}, is_running False, run id "
-                                                              f"{r['run_id']}")
+        if not running and st != "Stopped":
+            if quiet:
+                fail("state-not-stopped-while-no-run-active", i, f"System State {st}, is_running False, run id "
+                                                                  f"{r['run_id']}")
+            elif idle_error and st == "Paused":
+                fail("state-not-stopped-while-no-run-active:error-while-idle", i,
+                     "an error while no run is active left System State Paused (is_running False)")
+        if not running and (paused or holding) and (quiet or (holding and not idle_error)):
+            fail("control-flags-set-while-no-run-active", i,
+                 f"is_running False but is_paused={paused} is_holding={holding}")
         if running and st not in ("Restarting", "Stopped") and st != table(paused, holding):
             fail("state-table-mismatch", i, f"System State {st}, paused={paused} holding={holding}")
         rid = r["run_id"]
